@@ -635,6 +635,13 @@ def expected_translate_calls(log, c, p, vf, variant):
             # a message object offered for translation before it is converted to text
             calls.append(("<msg>", None, None, ev["d"] or None, ev["c"] or None, ev["t"] or None))
             continue
+        if ev["ev"] == "atrans":
+            # i18n:attributes: the attribute's text (static as written, computed converted and escaped) is the default and,
+            # without an explicit id, the message id; an empty text without an explicit id is not offered
+            info = _attr_trans(ev["i"], ev["st"], ev["dy"], ev["v"], c, p, vf, None, variant)
+            if info["called"]:
+                calls.append((info["msgid"], None, info["text"], ev["d"] or None, ev["c"] or None, ev["t"] or None))
+            continue
         if ev["ev"] != "translate":
             continue
         info = _trans_info(ev, log, c, p, vf, variant)
@@ -655,6 +662,24 @@ def _trans_info(ev, log, c, p, vf, variant):
     called = explicit or body != ""
     return dict(called=called, msgid=msgid, mapping=mapping, default=body,
                 result=tf_result(variant, msgid, mapping, body) if called else "")
+
+
+def _attr_trans(i, st, dy, v, c, p, vf, objs, variant):
+    """the translation of attribute (static index st, dynamic index dy) of item i whose value is v (default: the static text)"""
+    it = p["items"][i - 1]
+    key = it["dattr"][dy - 1]["key"] if dy else it["sattr"][st - 1]["key"]
+    explicit = next((a["id"] for a in it["ia"] if a["key"] == key), "")
+    if st:
+        quote = c.attrfmt[(i, st)][3] or '"'
+    else:
+        quote = '"'
+    if v["t"] == "default":
+        text = c.attrfmt[(i, st)][4].replace("$$", "$")
+    else:
+        text = esc_attr(_val_text(v, vf, objs), quote)
+    called = bool(explicit) or text != ""
+    msgid = explicit or text
+    return dict(called=called, msgid=msgid, text=text, result=tf_result(variant, msgid, None, text) if called else text)
 
 
 def print_atoms(atoms, c, p, vf, objs=None, log=None, variant="identity"):
@@ -690,6 +715,25 @@ def _print_atoms(atoms, c, p, vf, objs=None, log=None, variant="identity"):
             segs.append(c.piece[("etag", a["i"])])
         elif k == "sattr":
             segs.append(c.piece[("sattr", a["i"], a["n"])])
+        elif k == "tattr":
+            space, name, eq, quote, _v = c.attrfmt[(a["i"], a["n"])]
+            quote = quote or '"'
+            segs.append(space + name + eq + quote + _attr_trans(a["i"], a["n"], 0, {"t": "default"}, c, p, vf, objs, variant)["result"] + quote)
+        elif k == "dattr" and a.get("tr"):
+            it = p["items"][a["i"] - 1]
+            d = it["dattr"][a["n"] - 1]
+            if a["st"]:
+                space, _n, eq, quote, _v = c.attrfmt[(a["i"], a["st"])]
+                quote = quote or '"'
+            else:
+                space, eq, quote = " ", "=", '"'
+            segs.append(space + d["n"] + eq + quote + _attr_trans(a["i"], a["st"], a["n"], a["v"], c, p, vf, objs, variant)["result"] + quote)
+        elif k == "sdflt" and a.get("tr"):
+            it = p["items"][a["i"] - 1]
+            d = it["dattr"][a["n"] - 1]
+            space, _n, eq, quote, _v = c.attrfmt[(a["i"], a["st"])]
+            quote = quote or '"'
+            segs.append(space + d["n"] + eq + quote + _attr_trans(a["i"], a["st"], a["n"], {"t": "default"}, c, p, vf, objs, variant)["result"] + quote)
         elif k == "dattr":
             it = p["items"][a["i"] - 1]
             d = it["dattr"][a["n"] - 1]
